@@ -8,6 +8,7 @@ import (
 	"sync/atomic"
 	"time"
 
+	"github.com/fabiolb/fabio/auth"
 	"github.com/fabiolb/fabio/config"
 	"github.com/fabiolb/fabio/metrics"
 	"github.com/fabiolb/fabio/route"
@@ -58,8 +59,8 @@ func VerifC12GRPCUpstream(hits *atomic.Int64) (string, error) {
 }
 
 // VerifC12GRPCProxy starts a gRPC proxy listener with the server options of main.newGrpcProxy (routes come
-// from route.GetTable()). It returns the listen address.
-func VerifC12GRPCProxy() (string, error) {
+// from route.GetTable(), auth schemes are the given ones). It returns the listen address.
+func VerifC12GRPCProxy(schemes map[string]auth.AuthScheme) (string, error) {
 	cfg := &config.Config{}
 	cfg.Proxy.Strategy = "rnd"
 	cfg.Proxy.Matcher = "prefix"
@@ -70,7 +71,7 @@ func VerifC12GRPCProxy() (string, error) {
 	sh := &GrpcStatsHandler{
 		Connect: dp.NewCounter("c"), Request: dp.NewHistogram("r"), NoRoute: dp.NewCounter("n"), Status: dp.NewHistogram("s"),
 	}
-	pi := GrpcProxyInterceptor{Config: cfg, StatsHandler: sh, GlobCache: route.NewGlobCache(16)}
+	pi := GrpcProxyInterceptor{Config: cfg, StatsHandler: sh, GlobCache: route.NewGlobCache(16), AuthSchemes: schemes}
 	handler := grpc_proxy.TransparentHandler(GetGRPCDirector(nil, cfg))
 	srv := grpc.NewServer(
 		grpc.CustomCodec(grpc_proxy.Codec()),
